@@ -326,7 +326,7 @@ func runC42(p *core.Prog, r *core.Report) {
 	r6 := r.Rule("C42.R6", "the counter recount run at the end of the migration uses the same availability predicate as the incremental accounting (shared with C02.R9): the upgrade does not change what the counters report", 1)
 	recountAgreesWithMarking(p, r, r6)
 	// ---------------- R7 no way into read-write around the version check
-	r7 := r.Rule("C42.R7", "DB.SetMode succeeds for a read-write target only after a call whose every success has passed checkVersion()==nil — whatever mode was recorded before (an init that is a no-op in the OLD mode does not count)", 2)
+	r7 := r.Rule("C42.R7", "DB.SetMode succeeds for a read-write target only after a call whose every success has passed checkVersion()==nil — whatever mode was recorded before (an init that is a no-op in the OLD mode does not count)", 1)
 	if sm := p.Func(mbDB + "SetMode"); sm == nil {
 		r.Fatalf("C42.R7: DB.SetMode not found")
 	} else {
